@@ -4,10 +4,138 @@ package main
 
 func applyProfile(g *Gen, profile string) {
 	switch profile {
-	case "general":
+	case "unknown":
+		g.PMalformed = 5
+		g.UModes = []int{-1, 0, 1, 1, 2, 2}
+		g.PRequireOrder = 5
+		g.PRequired = 0
+	case "term":
+		g.PMalformed = 0
+		g.PRequired = 0
+		g.MaxArgv = 4
+	case "abbrev":
+		g.PMalformed = 0
+		g.PRequired = 0
+		g.PAliases = 70
+		g.MaxOpts = 6
+		g.PExoticNames = 20
+		g.Kinds = []int{KBool, KBool, KStr, KStr, KIncr, KInt, KStrOpt, KStrRep}
+	case "order":
+		g.PMalformed = 5
+		g.PRequireOrder = 70
+		g.PRequired = 0
+	case "scalar":
+		g.PMalformed = 0
+		g.PRequired = 0
+		g.Kinds = []int{KStr, KInt, KFloat, KStrOpt, KIntOpt, KFloatOpt, KBool, KIncr}
+		g.MaxDepth = 1
+	case "multi":
+		g.PMalformed = 0
+		g.PRequired = 0
+		g.Kinds = []int{KStrRep, KIntRep, KFloatRep, KMap, KBool, KStr}
+		g.MaxDepth = 1
+		g.MaxArgv = 10
+	case "alias":
+		g.PMalformed = 0
+		g.PRequired = 5
+		g.PAliases = 90
+	case "modes":
+		g.PMalformed = 5
+		g.PRequired = 0
+		g.PExoticNames = 30
+	case "env":
+		g.PMalformed = 0
+		g.PEnv = 70
+		g.PRequired = 20
+		g.Kinds = []int{KBool, KStr, KInt, KFloat, KStrOpt, KIntOpt, KFloatOpt, KStrRep}
+		g.MaxDepth = 1
+	case "soup":
+		g.PMalformed = 90
+		g.MaxArgv = 14
 	}
 }
 
 func genProgFor(g *Gen, profile string) *ProgDef { return g.GenProg() }
 
-func genArgvFor(g *Gen, profile string, p *ProgDef) []string { return g.GenArgv(p) }
+func (g *Gen) knownToken(p *ProgDef, path []*CmdDef) string {
+	vis := visibleOpts(path, p)
+	if len(vis) == 0 {
+		return "--none"
+	}
+	o := vis[g.r.Intn(len(vis))]
+	ks := optKeys(o)
+	return "--" + ks[g.r.Intn(len(ks))]
+}
+
+func genArgvFor(g *Gen, profile string, p *ProgDef) []string {
+	switch profile {
+	case "term":
+		ctx := g.GenArgv(p)
+		out := append([]string{}, ctx...)
+		// end the context in a chosen way
+		path := []*CmdDef{p.Root}
+		switch g.r.Intn(6) {
+		case 0: // positional
+			out = append(out, g.pick(wordPool))
+		case 1: // option without its value (mandatory missing / optional / greedy)
+			out = append(out, g.knownToken(p, path))
+		case 2: // option with one value (greedy ones may want more)
+			out = append(out, g.knownToken(p, path), g.pick(wordPool))
+		case 3: // command
+			if len(p.Root.Cmds) > 0 {
+				out = append(out, p.Root.Cmds[g.r.Intn(len(p.Root.Cmds))].Name)
+			}
+		}
+		out = append(out, "--")
+		n := g.r.Intn(4)
+		for i := 0; i < n; i++ {
+			switch g.r.Intn(5) {
+			case 0:
+				out = append(out, g.knownToken(p, path))
+			case 1:
+				out = append(out, g.pick(cmdNamePool))
+			case 2:
+				out = append(out, "--")
+			case 3:
+				out = append(out, "--unknown")
+			default:
+				out = append(out, g.pick(wordPool))
+			}
+		}
+		return out
+	case "abbrev":
+		path := []*CmdDef{p.Root}
+		out := []string{}
+		if len(p.Root.Cmds) > 0 && g.pct(30) {
+			c := p.Root.Cmds[g.r.Intn(len(p.Root.Cmds))]
+			out = append(out, c.Name)
+			path = append(path, c)
+		}
+		vis := visibleOpts(path, p)
+		n := 1 + g.r.Intn(3)
+		for i := 0; i < n && len(vis) > 0; i++ {
+			o := vis[g.r.Intn(len(vis))]
+			ks := optKeys(o)
+			key := ks[g.r.Intn(len(ks))]
+			pre := key[:1+g.r.Intn(len(key))]
+			attach := o.Kind > KIncr && g.pct(60)
+			tok := g.spell(pre, p.Mode, attach, g.valueFor(o.Kind))
+			out = append(out, tok)
+			if o.Kind > KIncr && !attach && g.pct(80) {
+				out = append(out, g.valueFor(o.Kind))
+			}
+		}
+		return out
+	case "unknown":
+		out := g.GenArgv(p)
+		// plant unknown options at random positions
+		n := 1 + g.r.Intn(2)
+		for i := 0; i < n; i++ {
+			u := []string{"--unknown", "-u", "--typo=1", "-Q", "--verbosee", "--zz", "-unk", "--un=a=b", "-QW"}[g.r.Intn(9)]
+			pos := g.r.Intn(len(out) + 1)
+			out = append(out[:pos], append([]string{u}, out[pos:]...)...)
+		}
+		return out
+	}
+	return g.GenArgv(p)
+}
